@@ -30,7 +30,7 @@ func persistProfile() *hist.Profile {
 	p.RPI0Pct = 0
 	p.HowDisc = []string{"normal", "drop"}
 	p.MsgExp = []uint32{0, 0, 150}
-	p.DiscExpiry = []uint32{0, 100, 600} // a normal v5 DISCONNECT may change the session expiry interval: the last value is what a restart must bring back
+	p.DiscExpiry = []uint32{0, 130, 600} // a normal v5 DISCONNECT may change the session expiry interval: the last value is what a restart must bring back
 	p.DiscExpPct = 40
 	p.ConnectAllFirst = true
 	p.NoSelfTakeover = true
@@ -65,7 +65,7 @@ func weaveRestarts(r *vk.Rand, ops []hist.Op, ticksAfter bool) []hist.Op {
 }
 
 func checkC20(c *vk.Ctx) {
-	c.Rule = "per backend (badger, pebble, bolt, redis via in-process miniredis): random histories over client ids {a, a:b, é, x_1}, filters {c, b:c, t/#, é/+, $share/g/s/1 (index comparison only), t/1, #} and topics {c, b:c, t/1, é/日, t/1:2} (MQTT 3.1.1/5, clean start 0/1, session expiry absent/300 and changed by DISCONNECT to 0/100/600, subscriptions with all options, QoS 0-2 publishes, retained set/clear, withheld acknowledgements so that messages stay in flight, message expiry; a second series with MQTT 5 clients announcing Receive Maximum 1/2 so that some in-flight messages are held back by the broker) with 2-3 orderly restarts (Server.Close, new broker and new hook instance on the same store, store loaded as Serve does) woven in, the last one followed by reconnects and traffic. " +
+	c.Rule = "per backend (badger, pebble, bolt, redis via in-process miniredis): random histories over client ids {a, a:b, é, x_1}, filters {c, b:c, t/#, é/+, $share/g/s/1 (index comparison only), t/1, #} and topics {c, b:c, t/1, é/日, t/1:2} (MQTT 3.1.1/5, clean start 0/1, session expiry absent/300 and changed by DISCONNECT to 0/130/600, subscriptions with all options, QoS 0-2 publishes, retained set/clear, withheld acknowledgements so that messages stay in flight, message expiry; a second series with MQTT 5 clients announcing Receive Maximum 1/2 so that some in-flight messages are held back by the broker) with 2-3 orderly restarts (Server.Close, new broker and new hook instance on the same store, store loaded as Serve does) woven in, the last one followed by reconnects and traffic. " +
 		"After every restart the restarted broker's sessions (existence and effective expiry setting), topic-index subscriptions with options, retained messages and in-flight records (payload, PUBLISH/PUBREL, packet id) are compared with the reference model; every retained message and in-flight PUBLISH/PUBREL that the broker held in memory before the shutdown and holds again afterwards is compared field by field (payload, QoS, origin, creation and expiry time, message expiry interval, content type, response topic, correlation data, user properties, payload format, subscription identifiers); a directed probe per backend replaces retained messages by messages with the same payload but other properties, QoS or expiry (and clears and re-sets one) before the restart; afterwards the history continues and every delivery, session-present flag, resend and retained replay is judged by the same model as in C03-C09/C14. nontrivial = histories with >=1 restart at which >=1 session, subscription, retained or in-flight record had to be restored"
 	c.Assumptions = []string{"the clock of restored sessions restarts at the restart (the statement requires the expiry settings, not the remaining time)", "delayed wills are not used in this profile (they live in memory only)",
 		"stores are closed cleanly (engine durability is not under test)"}
